@@ -1,3 +1,4 @@
+-- properties: C20 C01
 /-
   C20, IEEE part — "the portable IEEE-754 float and double serialisers agree bit for bit with the native
   representation for every finite normal value, and byte-order helpers are exact involutions".
